@@ -1,4 +1,5 @@
 import Chess.Lemmas.Budget
+import Chess.Lemmas.Go
 
 /-!
 # C13 — thinking time never exceeds the time available
@@ -53,7 +54,24 @@ theorem no_timer_iff (wtime btime winc binc movetime : Option Nat) (infinite : B
       infinite = true ∨ (movetime = none ∧ (wtime = none ∨ btime = none ∨ winc = none ∨ binc = none)) :=
   budget_none_iff wtime btime winc binc movetime infinite side share
 
+/-- **C13.6 over the raw command.** `goArgs` is the argument loop of `command_go` (keywords, values,
+resets, overrides, junk — `Chess/Model/Go.lean`). For EVERY list of words after `go`: an armed
+timer is armed for at most the understood move time, else for at most the mover's own clock less
+the latency allowance and the sleep cut; the value is a `u64`; `infinite` arms none. -/
+theorem raw_command_bounded (words : List (List Char)) (side : Player) (share : Nat → Nat) {t : Nat}
+    (h : goBudget words side share = some t) :
+    (∀ mt, (goArgs words).movetime = some mt → t ≤ mt) ∧
+    ((goArgs words).movetime = none → ∃ wt bt, (goArgs words).wtime = some wt ∧ (goArgs words).btime = some bt ∧
+        t ≤ ownClock side wt bt - Gen.latencyMs - Gen.sleepCutMs) ∧
+    t ≤ u64Max ∧ (goArgs words).infinite = false :=
+  goBudget_bounded words side share h
+
+/-- every value the loop understands is a value of its Rust type, whatever the words -/
+theorem raw_arguments_fit (words : List (List Char)) : (goArgs words).Fit := goArgs_fit words
+
 -- non-vacuity
+example : goBudget (splitWs "wtime 60000 btime 60000 winc 1000 binc 1000 wtime 30000".toList) .white (· / 50)
+    = some 1445 := by decide
 example : ShareOK (· / 50) := shareOK_div50
 example : budget (some 60000) (some 60000) (some 1000) (some 1000) none false .white (· / 50) = some 2045 := by decide
 example : budget (some 1000) (some 1000) (some 0) (some 0) none false .white (· / 50) = some 0 := by decide
@@ -67,3 +85,5 @@ end Chess.Props.C13
 #print axioms Chess.Props.C13.allotment_fits_u64
 #print axioms Chess.Props.C13.low_clock_gives_zero
 #print axioms Chess.Props.C13.no_timer_iff
+#print axioms Chess.Props.C13.raw_command_bounded
+#print axioms Chess.Props.C13.raw_arguments_fit
